@@ -1,6 +1,6 @@
 (* C18 — Deletion waits for cleanup: finalizers guard every teardown.  Statements only. *)
 From RV Require Import Base.Util Base.IntStr Model.BatchArith.
-From RV Require Model.RolloutSM Proofs.RolloutSM Model.BRExec Proofs.BRExec.
+From RV Require Model.RolloutSM Corr.RolloutSM Proofs.RolloutSM Model.BRExec Proofs.BRExec.
 
 (* the Rollout controller drops its finalizer only for a deleting Rollout whose Terminating condition already says
    Completed (which the terminating branch sets only when the whole finalising sequence reported done) *)
@@ -17,3 +17,14 @@ Theorem C18_batchrelease_finalizer_guard :
   BRExec.sp_deleting sp = true /\ BRExec.bs_phase st = BRExec.PhCompleted /\ BRExec.sp_finalizer sp = true.
 Proof. exact Proofs.BRExec.br_finalizer_guard. Qed.
 Print Assumptions C18_batchrelease_finalizer_guard.
+
+(* the teardown sequence (delete, disable, success or rollback) reports done only once the BatchRelease is gone, and
+   removes the in-progress marker in the same reconcile — so the Terminating condition can only become Completed,
+   and the finalizer only be dropped, after cleanup *)
+Theorem C18_finalising_done_means_clean :
+  forall sp s w br r wr u s1 br' anno,
+  RolloutSM.do_finalising sp s w br r wr = (true, s1, br', anno) -> RolloutSM.rp_sub s = Some u -> RolloutSM.su_fin u <> RolloutSM.FtEnd ->
+  Corr.RolloutSM.release_not_yet_done r (RolloutSM.su_fin u) = true ->
+  br' = None /\ anno = (RolloutSM.wl_exists w && RolloutSM.wl_consistent w && RolloutSM.wl_in_progress w).
+Proof. exact Proofs.RolloutSM.do_finalising_done_clean. Qed.
+Print Assumptions C18_finalising_done_means_clean.
